@@ -142,10 +142,12 @@ class Rig:
 
 def encode(rig: Rig, sym, idx):
     name = f"n{idx}".encode()
+    # the pair with cookie 2 is the rename of a directory (IN_ISDIR set on both halves), the pair with cookie 1 that of a file
+    isdir = 0x40000000 if sym[1:] == "2" else 0
     if sym in ("F1", "F2"):
-        return pack(rig.wd_root, IN_MOVED_FROM, 100 + int(sym[1]), name)
+        return pack(rig.wd_root, IN_MOVED_FROM | isdir, 100 + int(sym[1]), name)
     if sym in ("T1", "T2"):
-        return pack(rig.wd_root, IN_MOVED_TO, 100 + int(sym[1]), name)
+        return pack(rig.wd_root, IN_MOVED_TO | isdir, 100 + int(sym[1]), name)
     if sym == "X":
         return pack(rig.wd_root, IN_CREATE, 0, name)
     if sym == "Y":
